@@ -213,6 +213,14 @@ fn const_value_json<'tcx>(tcx: TyCtxt<'tcx>, cv: ConstValue, ty: Ty<'tcx>) -> Ve
         ConstValue::Scalar(mir::interpret::Scalar::Ptr(ptr, _)) => {
             let (prov, off) = ptr.into_raw_parts();
             let aid = prov.alloc_id();
+            if let Some(mir::interpret::GlobalAlloc::Static(sdid)) = tcx.try_get_global_alloc(aid) {
+                v.push(("static", s(path_of(tcx, sdid))));
+                return v;
+            }
+            if let Some(mir::interpret::GlobalAlloc::Function { instance }) = tcx.try_get_global_alloc(aid) {
+                v.push(("fnptr", s(path_of(tcx, instance.def_id()))));
+                return v;
+            }
             // pointee size when known: &[T;N] / &T
             if let Some(b) = alloc_bytes(tcx, aid, off.bytes(), None) {
                 v.push(("bytes", bytes_json(&b)));
